@@ -211,11 +211,16 @@ theorem handlers_cover_counterexample_assert :
 /-! ### the error-collection policy over every `raise` statement of the validators
 
   Clause: "lax mode never raises for invalid content".  `raiseSites` is regenerated from the AST of
-  xmlschema/validators on every run; `RaisePolicy.policy` is the hand-maintained classification.
+  xmlschema/validators on every run; `RaisePolicy.policyBase` (+ `guardEntries`) is the hand-maintained classification.
   Hypotheses of the property, under which `fire` is stated: a BUILT schema, a document given to
   the documented entry points with well-typed arguments.  The harness observes every raise of the
   package during the fuzz run and compares it with `fire` (a `silent` site that fires, a `collected`
   site whose exception leaves a lax / skip entry point: the tie is broken). -/
+
+open XsVerif.RaisePolicy in
+/-- the hand table for the variant of the source under check (`recursionGuard` is read from the AST:
+    the repaired descent has two more `raise` statements, both of kind `limit`) -/
+def policy : List (String × Nat × Kind) := policyOf recursionGuard
 
 open XsVerif.RaisePolicy in
 /-- the sites of the regenerated table with the kind that the walk along the hand table gives them -/
